@@ -22,6 +22,9 @@ ASSUMPTIONS = [
     'present, modified basis, or GlobalHighOrderGrid which matches moments on the inner points); Simpson / Lagrange / B-spline '
     'with boundary=False and unmodified basis have zero-boundary-value semantics (set_grid strips the boundary weights)',
     'modified basis, one point, a = b (returns [0.0] in Python) is outside the model (None)',
+    'magnitudes: intervals far from the origin, tiny and huge intervals in every part; comparisons are relative to the interval '
+    '(trapezoid: exact / 2^-44*(b-a); moment checker on the rule mapped affinely to [-1,1], tolerance 2^-30 widened by '
+    'max(1, max(|a|,|b|)/(b-a)/2^17) for the rounding of far-off coordinates)',
     'histories on one object: every request is compared EXACTLY with fresh one-dimensional objects (same arithmetic), the point arrays '
     'handed in must be unchanged afterwards, the returned weight arrays are overwritten by the harness before the next request; '
     'two-dimensional hierarchical rules are judged by the integrals of 1, x, y within 1e-8 * area * max(1,|bounds|); numpy arrays as '
@@ -30,6 +33,34 @@ ASSUMPTIONS = [
 ]
 
 INTERVALS = [(0.0, 1.0), (-1.0, 3.0), (2.0, 2.5), (0.0, 3.0), (-1.0, 2.0), (0.5, 2.0), (-3.0, 6.0), (1.0, 6.0)]
+# the MAGNITUDE axis: domains far from the origin (offsets 2^10, 2^17, 1e5, 1e6, negative), tiny and huge intervals; dyadic trees are
+# scaled into them (points exactly representable wherever the width is a power of two times few bits); every comparison is relative
+# to the interval (width, affinely normalised moments), never absolute
+FAR_INTERVALS = [(1024.0, 1025.0), (131072.0, 131074.0), (100000.0, 100001.0), (1000000.0, 1000001.0), (-1000002.0, -1000000.0),
+                 (-131072.5, -131072.0), (1000.0, 1001.0), (-100000.0, -99996.0)]
+TINY_INTERVALS = [(0.0, 2.0 ** -20), (0.0, 2.0 ** -27), (0.0, 1e-8), (1.0, 1.0 + 2.0 ** -20), (-2.0 ** -27, 2.0 ** -27), (3e-9, 5e-9)]
+HUGE_INTERVALS = [(0.0, 2.0 ** 20), (-2.0 ** 30, 2.0 ** 30), (0.0, 1e6), (-3e5, 7e5)]
+
+
+def pick_interval(rng, exclude=None):
+    while True:
+        r = rng.random()
+        iv = rng.choice(INTERVALS if r < 0.6 else FAR_INTERVALS if r < 0.8 else TINY_INTERVALS if r < 0.92 else HUGE_INTERVALS)
+        if iv != exclude:
+            return iv
+
+
+def magnitude_class(a, b):
+    """width class / position class of the interval"""
+    w = b - a
+    return ('tiny' if w < 1e-4 else 'huge' if w > 1e4 else 'unit') + '/' + position_class(a, b)
+
+
+def position_class(a, b):
+    # far: the offset dwarfs the width (moments cancel); symmetric: the odd moments vanish
+    return 'symmetric' if a == -b else 'far' if max(abs(a), abs(b)) / (b - a) > 100 else 'near'
+
+
 TOL_EXACTISH = F(1, 2 ** 44)
 TOL_CERT = F(1, 2 ** 30)
 
@@ -58,8 +89,10 @@ def gen_tree(rng, a, b, npts, style, wsplit, maxdepth):
             i = inside[0] if inside else rng.choice(cand)
         s, e, l0, l1, dp = iv[i]
         q = rng.choice([F(1, 4), F(3, 8), F(5, 8), F(3, 4), F(1, 2)]) if wsplit else F(1, 2)
-        m = s + q * (e - s)
-        assert F(float(m)) == m
+        m = F(float(s + q * (e - s)))         # exact for dyadic positions; rounded to the nearest float otherwise (e.g. width 1e-8)
+        if not s < m < e:
+            iv[i] = (s, e, l0, l1, maxdepth)    # no float strictly inside: this leaf cannot be refined
+            continue
         nl = max(l0, l1) + 1
         iv[i:i + 1] = [(s, m, l0, nl, dp + 1), (m, e, nl, l1, dp + 1)]
     pts = [float(iv[0][0])] + [float(x[1]) for x in iv]
@@ -79,7 +112,7 @@ def gen_npts(rng):
 
 
 def gen_dim(rng, wsplit, npts=None):
-    a, b = rng.choice(INTERVALS)
+    a, b = pick_interval(rng)
     n = npts or gen_npts(rng)
     style = rng.choice(['uniform', 'left', 'right', 'ends', 'point', 'point'])
     pts, lev = gen_tree(rng, a, b, n, style, wsplit, 8 if wsplit else 16)
@@ -137,7 +170,7 @@ def gen_cert_case(rng):
     hier = fam in ('lagrange', 'bspline')
     wsplit = (not hier) and rng.random() < 0.2
     full = rng.random() < 0.2          # complete uniform grid of level l ("enough points" for the order clause)
-    a, b = rng.choice(INTERVALS)
+    a, b = pick_interval(rng)
     if full:
         l = rng.randrange(1, 6)
         n = 2 ** l + 1
@@ -333,9 +366,21 @@ def oracle_trap_dim(case, k, coords, weights, weights_scrambled, tol):
     return None
 
 
+def dyadic_positions(dd):
+    a, b = F(dd['a']), F(dd['b'])
+    for x in dd['pts']:
+        q = (F(x) - a) / (b - a)
+        if q.denominator & (q.denominator - 1) or q.denominator > 2 ** 30:
+            return False
+    # the width itself must leave room for the products of the 4-point special case: few significant bits
+    w = b - a
+    return (w.numerator * w.denominator).bit_length() <= 24 and max(abs(a.numerator), abs(b.numerator)).bit_length() <= 24
+
+
 def is_exact(c):
-    # midpoint trees: all widths are (b-a)*2^-k, every quotient of compute_weights is dyadic -> floats are exact
-    return not ((c['wsplit'] or c['kind'] == 'unsorted') and c['mb'])
+    # midpoint trees: all widths are (b-a)*2^-k, every quotient of compute_weights is dyadic -> floats are exact; positions that are
+    # not dyadic fractions of a short-mantissa interval (width 1e-8, rounded midpoints) are compared within 2^-44 * (b-a)
+    return not ((c['wsplit'] or c['kind'] == 'unsorted') and c['mb']) and all(dyadic_positions(dd) for dd in c['dims'])
 
 
 def is_valid_trap(case):
@@ -367,8 +412,11 @@ def check_trap(chk, cases, impl, keys, samples):
         chk.count('trap:boundary=%d,modified=%d' % (c['boundary'], c['mb']))
         chk.count('trap:max-points=' + n_bucket(max(len(dd['pts']) for dd in c['dims']))); chk.count('trap:weighted-splits=%d' % c['wsplit'])
         for dd in c['dims']:
-            chk.count('interval=[%s,%s]' % (dd['a'], dd['b']))
-        sig0 = {'boundary': int(c['boundary']), 'mb': int(c['mb'])}
+            chk.count('magnitude(trap)=' + magnitude_class(dd['a'], dd['b']))
+        mags = [magnitude_class(dd['a'], dd['b']) for dd in c['dims']]
+        sig0 = {'boundary': int(c['boundary']), 'mb': int(c['mb']), 'points': n_class(c), 'magnitude': sorted(set(mags))[-1],
+                # the 4-point special case of the modified basis on a far-off interval (known finding: cancellation)
+                'four_point_far': any(len(dd['pts']) == 4 and position_class(dd['a'], dd['b']) == 'far' for dd in c['dims'])}
         if st != 'ok':
             chk.violation('corr:C09/trap', 'worker-failed', dict(sig0, status=st), c, dict(impl=str(r)[:400]))
             continue
@@ -599,10 +647,31 @@ def cert_degrees(c, res):
     return None
 
 
+def normalise_rule(inner, weights, a, b):
+    """The rule mapped affinely to [-1,1] (exactness for polynomials of degree < K is invariant; in these coordinates the moment
+    residuals and their tolerances are relative to the interval, whatever its position and width)."""
+    c, h = (a + b) / 2, (b - a) / 2
+    return [(x - c) / h for x in inner], [w / h for w in weights], F(-1), F(1)
+
+
+def moment_tolerances(pts, wts, a, b, K, scale=1):
+    return [TOL_CERT * scale * (sum(abs(w) * abs(x) ** j for w, x in zip(wts, pts)) + abs((b ** (j + 1) - a ** (j + 1)) / (j + 1)))
+            for j in range(K)]
+
+
+def position_scale(a, b):
+    """Coordinates carry a rounding error of about 2^-53 * max(|a|,|b|); relative to the interval this is amplified by
+    max(|a|,|b|) / (b-a).  The tolerance of the moment checker grows with it once it exceeds 2^20 (far-off unit intervals at 1e6)."""
+    r = max(abs(a), abs(b)) / (b - a)
+    return max(1, r / 2 ** 17)
+
+
 def cert_sig(c):
     sig = {'family': c['family'], 'boundary': int(c['boundary']), 'mb': int(c['mb'])}
     if 'p' in c['par']:
         sig['p'] = c['par']['p']          # order of the hierarchical basis (p = 1 is structurally different: two-knot windows)
+    sig['magnitude'] = magnitude_class(c['dim']['a'], c['dim']['b'])
+    sig['position'] = position_class(c['dim']['a'], c['dim']['b'])
     return sig
 
 
@@ -612,6 +681,7 @@ def check_cert(chk, cases, impl, keys, samples):
         st, r = impl[i]
         fam = c['family']
         chk.count('cert:%s boundary=%d modified=%d' % (fam, c['boundary'], c['mb']))
+        chk.count('magnitude(cert)=' + magnitude_class(c['dim']['a'], c['dim']['b']))
         chk.count('cert:points=' + n_bucket(len(c['dim']['pts']))); chk.count('cert:complete-grid=%d weighted-splits=%d' % (c['full'], c['wsplit']))
         if 'p' in c['par']:
             chk.count('cert:%s p=%d' % (fam, c['par']['p']))
@@ -650,11 +720,9 @@ def check_cert(chk, cases, impl, keys, samples):
         if K is None or not inner:
             chk.count('cert:not-in-scope')
             continue
-        tols = []
-        for j in range(K):
-            ex = (b ** (j + 1) - a ** (j + 1)) / (j + 1)
-            tols.append(TOL_CERT * (sum(abs(w) * abs(x) ** j for w, x in zip(res['weights'], inner)) + abs(ex)))
-        mcases.append((2, [inner, res['weights'], a, b, tols])); midx.append((i, K, tols))
+        npts, nwts, na, nb = normalise_rule(inner, res['weights'], a, b)
+        tols = moment_tolerances(npts, nwts, na, nb, K, position_scale(a, b))
+        mcases.append((2, [npts, nwts, na, nb, tols])); midx.append((i, K, tols))
     mres = run_model(9, mcases)
     for (i, K, tols), mr in zip(midx, mres):
         c = cases[i]; res = impl[i][1][1]
@@ -692,10 +760,10 @@ def first_bad_degree(c, res):
     K = cert_degrees(c, res)
     if K is None:
         return None
-    for j in range(K):
-        ex = (b ** (j + 1) - a ** (j + 1)) / (j + 1)
-        tol = TOL_CERT * (sum(abs(w) * abs(x) ** j for w, x in zip(res['weights'], inner)) + abs(ex))
-        if abs(sum(w * x ** j for w, x in zip(res['weights'], inner)) - ex) > tol:
+    npts, nwts, na, nb = normalise_rule(inner, res['weights'], a, b)
+    for j, tol in enumerate(moment_tolerances(npts, nwts, na, nb, K, position_scale(a, b))):
+        ex = (nb ** (j + 1) - na ** (j + 1)) / (j + 1)
+        if abs(sum(w * x ** j for w, x in zip(nwts, npts)) - ex) > tol:
             return j
     return None
 
@@ -754,7 +822,7 @@ def gen_hist_case(rng, big=False):
         flags = rng.choice([(True, False), (True, False), (False, True)])
     hier = fam in ('lagrange', 'bspline')
     d = 1 if rng.random() < (0.65 if hier else 0.5) else 2
-    iv0 = rng.choice(INTERVALS)
+    iv0 = pick_interval(rng)
     n0 = rng.choice([3, 4, 5, 5, 6, 7, 9]) if rng.random() < 0.45 else rng.randrange(10, 26 if hier else 41)
     if big:
         n0 = rng.choice([65, 97, 129]) if not hier else 65
@@ -767,10 +835,10 @@ def gen_hist_case(rng, big=False):
         if mode2 == 'equal-stripe':
             dims.append(dict(dims[0], pts=list(pts), levels=list(lev)))
         elif mode2 == 'scaled-stripe':
-            iv1 = rng.choice([iv for iv in INTERVALS if iv != iv0])
+            iv1 = pick_interval(rng, exclude=iv0)
             dims.append(scale_dim(dims[0], iv1[0], iv1[1]))
         else:
-            iv1 = rng.choice(INTERVALS)
+            iv1 = pick_interval(rng)
             p1, l1 = gen_tree(rng, iv1[0], iv1[1], rng.choice([3, 4, 5, 7, 9, 12]), rng.choice(['uniform', 'left', 'right']), False, 9)
             dims.append(dict(a=iv1[0], b=iv1[1], pts=p1, levels=l1))
     steps = [dict(kind='first', dims=[dict(pts=list(x['pts']), levels=list(x['levels'])) for x in dims])]
@@ -943,7 +1011,7 @@ def hist_predicate(case, si, obs):
                 return 'two-dimensional rule: integral of %s is %s, exact %s' % (name, float(got), float(ex))
     for k, pc in enumerate(hist_step_cases(case, si)):
         if case['family'] == 'trap':
-            o = oracle_trap_dim(pc, 0, res['coords'][k], res['weights'][k], None, 0)
+            o = oracle_trap_dim(pc, 0, res['coords'][k], res['weights'][k], None, 0 if is_exact(pc) else TOL_EXACTISH)
             if o:
                 return 'dimension %d: %s: %s' % (k, o[0], o[1])
         else:
@@ -989,9 +1057,9 @@ def check_hist(chk, cases, impl, keys, samples):
                     K = cert_degrees(pc, {})
                     if K is None or not inner or len(w) != len(inner) or res['coords'][k] != inner:
                         continue
-                    tols = [TOL_CERT * (sum(abs(wi) * abs(x) ** j for wi, x in zip(w, inner)) + abs((b ** (j + 1) - a ** (j + 1)) / (j + 1)))
-                            for j in range(K)]
-                    mcases.append((2, [inner, w, a, b, tols])); midx.append((i, si, k, 'moments', tols))
+                    npts, nwts, na, nb = normalise_rule(inner, w, a, b)
+                    tols = moment_tolerances(npts, nwts, na, nb, K, position_scale(a, b))
+                    mcases.append((2, [npts, nwts, na, nb, tols])); midx.append((i, si, k, 'moments', tols))
     mres = run_model(9, mcases)
     verdict = {}
     for (i, si, k, what, tols), mr in zip(midx, mres):
@@ -1001,6 +1069,8 @@ def check_hist(chk, cases, impl, keys, samples):
         fam = c['family']
         d = len(c['intervals'])
         chk.count('hist:%s boundary=%d modified=%d' % (fam, c['boundary'], c['mb'])); chk.count('hist:d=%d' % d)
+        for iv in c['intervals']:
+            chk.count('magnitude(hist)=' + magnitude_class(iv[0], iv[1]))
         chk.count('hist:steps=%d' % len(c['steps'])); chk.count('hist:args=%s poke=%d' % (c['arg_style'], c['poke']))
         if c['mode2']:
             chk.count('hist:second-dimension=' + c['mode2'])
@@ -1010,7 +1080,11 @@ def check_hist(chk, cases, impl, keys, samples):
         if fam == 'highorder':
             chk.count('hist:highorder split_up=%d' % c['par']['split_up'])
         pc0 = hist_step_cases(c, 0)[0]
-        sig0 = dict(cert_sig(pc0) if fam != 'trap' else {'family': 'trap', 'boundary': int(c['boundary']), 'mb': int(c['mb'])})
+        sig0 = dict(cert_sig(pc0) if fam != 'trap' else {'family': 'trap', 'boundary': int(c['boundary']), 'mb': int(c['mb']),
+                                                         'magnitude': magnitude_class(*c['intervals'][0])})
+        poss = [position_class(iv[0], iv[1]) for iv in c['intervals']]
+        sig0['position'] = next((p_ for p_ in ('far', 'symmetric') if p_ in poss), 'near')     # over all dimensions of the object
+        sig0['magnitude'] = sorted(magnitude_class(iv[0], iv[1]) for iv in c['intervals'])[-1]
         if st != 'ok':
             chk.violation('corr:C09/history', 'worker-failed', dict(sig0, status=st), c, dict(impl=str(r)[:300]))
             continue
@@ -1068,7 +1142,10 @@ def check_hist(chk, cases, impl, keys, samples):
                         continue
                     _, mco, mwe, mle, mnp = mr
                     mwe = [sx.q(x) for x in mwe]; mco = [sx.q(x) for x in mco]
-                    if (mwe != ru[1]['weights'][k] or mco != ru[1]['coords'][k]) and not reported:
+                    pck = hist_step_cases(c, si)[k]
+                    tolk = 0 if is_exact(pck) else TOL_EXACTISH * (F(pck['dims'][0]['b']) - F(pck['dims'][0]['a']))
+                    same_w = len(mwe) == len(ru[1]['weights'][k]) and all(close(x, y, tolk) for x, y in zip(ru[1]['weights'][k], mwe))
+                    if (not same_w or mco != ru[1]['coords'][k]) and not reported:
                         pred = hist_predicate(c, si, ru)
                         chk.violation('corr:C09/history', 'history-differs', dict(sig0, step=c['steps'][si]['kind'], observable='model'),
                                       hist, dict(step=si, dim=k, impl=str(ru[1]['weights'][k])[:300], model=str(mwe)[:300],
@@ -1147,6 +1224,9 @@ def corpus():
     t.append(dict(kind='valid', dims=[dict(a=-1.0, b=3.0, pts=[-1.0, 0.0, 1.0, 2.0, 3.0], levels=[0, 2, 1, 2, 0]),
                                       dict(a=0.0, b=3.0, pts=[0.0, 0.75, 1.5, 3.0], levels=[0, 2, 1, 0])],
                   boundary=False, mb=True, wsplit=False, polys=[[1, 1], [2, -1]], scramble=2, values_seed=2))
+    t.append(dict(kind='valid', dims=[dict(a=131072.0, b=131072.5, pts=[131072.0, 131072.1875, 131072.3046875, 131072.5],
+                                           levels=[0, 1, 2, 0])], boundary=False, mb=True, wsplit=True, polys=[[1, 1]], scramble=2,
+                  values_seed=2))
     ce = []
     # exemplars of the known findings
     ce.append(dict(kind='cert', family='simpson', par={}, boundary=True, mb=False, wsplit=False, full=False,
@@ -1157,6 +1237,8 @@ def corpus():
                    wsplit=False, full=False, dim=dict(a=-1.0, b=3.0, pts=[-1.0, -0.5, 0.0, 1.0, 1.5, 1.75, 2.0, 3.0], levels=[0, 3, 2, 1, 3, 4, 2, 0])))
     ce.append(dict(kind='cert', family='lagrange', par=dict(p=2), boundary=False, mb=True, wsplit=False, full=False,
                    dim=dict(a=0.0, b=1.0, pts=[0.0, 0.5, 1.0], levels=[0, 1, 0])))
+    ce.append(dict(kind='cert', family='simpson', par={}, boundary=True, mb=False, wsplit=False, full=True,
+                   dim=dict(a=1000.0, b=1001.0, pts=[1000.0, 1000.5, 1001.0], levels=[0, 1, 0])))
     ce.append(dict(kind='cert', family='lagrange', par=dict(p=1), boundary=False, mb=True, wsplit=False, full=False,
                    dim=dict(a=0.0, b=1.0, pts=[0.0, 0.5, 1.0], levels=[0, 1, 0])))
     ce.append(dict(kind='cert', family='lagrange', par=dict(p=2), boundary=False, mb=True, wsplit=False, full=False,
@@ -1256,9 +1338,9 @@ def replay(chk, rep):
             K = cert_degrees(c, res)
             if K:
                 a, b = F(c['dim']['a']), F(c['dim']['b'])
-                tols = [TOL_CERT * (sum(abs(w) * abs(x) ** j for w, x in zip(res['weights'], inner)) + abs((b ** (j + 1) - a ** (j + 1)) / (j + 1)))
-                        for j in range(K)]
-                mr = run_model(9, [(2, [inner, res['weights'], a, b, tols])])[0]
+                npts, nwts, na, nb = normalise_rule(inner, res['weights'], a, b)
+                tols = moment_tolerances(npts, nwts, na, nb, K, position_scale(a, b))
+                mr = run_model(9, [(2, [npts, nwts, na, nb, tols])])[0]
                 print('model moments_ok:', mr[0], 'residuals', [float(sx.q(x)) for x in mr[1]])
                 print('property predicate:', 'holds' if mr[0] else 'VIOLATED (moment of degree %s)' % bad)
                 return 0 if mr[0] else 1
